@@ -291,6 +291,10 @@ def run_subprocess(w, data):
         if os.path.exists(plan["result"]):
             with open(plan["result"]) as fh:
                 res = json.load(fh)
+        if res is None and cp.returncode < 0:
+            # the process was killed by a signal (no exit handlers ran): status and message are what there is to judge
+            return {"status": cp.returncode, "stderr": cp.stderr[-20000:], "exc": None, "bytes": None, "tree": None, "opened_w": 0,
+                    "fired": [], "handles": 0, "killed_by_signal": -cp.returncode}
         if res is None:
             return {"status": cp.returncode, "stderr": cp.stderr[-20000:], "bytes": None, "harness": "no result file"}
         okey = res["resolved"][w["output_name"]]
@@ -337,7 +341,9 @@ def compare(w, api, other, label):
             out.append(_v("different_file_system_state", f"{label} exits 0 and the output reads the same, but the file system differs from what the API calls leave: {'; '.join(diff)}", w, label))
     else:
         if not other["stderr"].strip():
-            out.append(_v("silent_failure", f"{label} exits {other['status']} without any message", w, label))
+            out.append(_v("silent_failure", f"{label} exits {other['status']} without any message"
+                          + (f" (killed by signal {other['killed_by_signal']})" if other.get("killed_by_signal") else ""), w, label))
+            return out
         elif not ok_api and not any(os.path.basename(n_) in other["stderr"] for n_ in (w["input_name"], w["output_name"])):
             # "an error naming the problem": every error of the library names the file it is about
             out.append(_v("error_names_no_file", f"{label} exits {other['status']} but its message names neither the input nor the output file: "
